@@ -51,6 +51,9 @@ type State struct {
 	alloc  string // allocation counter term
 	steps  int
 	havocAll int
+	qfacts []qfact
+	idx    []string
+	pendingGhost [][2]string
 }
 
 func (s *State) clone() *State {
@@ -62,6 +65,8 @@ func (s *State) clone() *State {
 		n.ghost[k] = v
 	}
 	n.pc = append([]string(nil), s.pc...)
+	n.qfacts = append([]qfact(nil), s.qfacts...)
+	n.idx = append([]string(nil), s.idx...)
 	// frames: copy value maps (shallow), whole parent chain
 	if s.fr != nil {
 		n.fr = s.fr.clone()
@@ -124,6 +129,7 @@ type FV struct {
 	coverDone map[string]bool
 	query  []modelQuery
 	frame  *frameSet
+	reached map[string]bool // contracts relied upon: "func:K", "iface:K", "functype:K"
 	nTouch int
 	nQuick int
 }
@@ -161,7 +167,10 @@ func (fv *FV) heapK(st *State, key, sort string) string {
 	}
 	// first use: the entry heap, shared by all paths
 	n := heapName(key) + "!0"
-	fv.declare(n, "(Array Int "+sort+")")
+	if !fv.declS[n] {
+		fv.declare(n, "(Array Int "+sort+")")
+		fv.entryHeapWF(n, sort)
+	}
 	fv.heapsUsed[key] = sort
 	st.heaps[key] = n
 	return n
@@ -242,8 +251,11 @@ func (fv *FV) updPath(old string, path []step, v string) string {
 	return fmt.Sprintf("(store %s %s %s)", old, s.idx, fv.updPath(cur, path[1:], v))
 }
 
-func (fv *FV) store(st *State, l *Loc, v string) {
-	fv.touch(st, l.heap, l.ref, "store")
+func (fv *FV) store(st *State, l *Loc, v string) { fv.storeUnless(st, l, v, "") }
+
+// storeUnless: a store that is a no-op when skip holds (copy-out of an unmodified box).
+func (fv *FV) storeUnless(st *State, l *Loc, v string, skip string) {
+	fv.touchUnless(st, l.heap, l.ref, "store", skip)
 	h := fv.heap(st, l.heap)
 	var nv string
 	if len(l.path) == 0 {
@@ -289,4 +301,48 @@ func typeRange(w int, signed bool) (string, string) {
 	b.Lsh(b, uint(w))
 	b.Sub(b, newBig(1))
 	return "0", b.String()
+}
+
+// wfCond: every reference held in a value of the given sort is at most bound.
+// Only struct sorts, slices and interfaces are covered (a bare Int may be a
+// number or a pointer, so it is left unconstrained unless the Go type is known).
+func (fv *FV) wfCond(term, sort string, bound string, depth int) []string {
+	if depth > 4 {
+		return nil
+	}
+	switch sort {
+	case "Slice":
+		return []string{fmt.Sprintf("(<= (sref %s) %s)", term, bound), fmt.Sprintf("(<= 0 (sref %s))", term)}
+	case "Iface":
+		return []string{fmt.Sprintf("(<= (ival %s) %s)", term, bound)}
+	}
+	if si, ok := fv.u.structs[sort]; ok {
+		var out []string
+		for i, f := range si.Fields {
+			ft := si.T.Field(i).Type()
+			sub := fmt.Sprintf("(%s %s)", f, term)
+			switch ft.Underlying().(type) {
+			case *types.Pointer, *types.Map:
+				out = append(out, fmt.Sprintf("(<= %s %s)", sub, bound), fmt.Sprintf("(<= 0 %s)", sub))
+			default:
+				out = append(out, fv.wfCond(sub, si.FSorts[i], bound, depth+1)...)
+			}
+		}
+		return out
+	}
+	return nil
+}
+
+// entryHeapWF: objects that exist at function entry only reference objects that exist at entry.
+func (fv *FV) entryHeapWF(h, sort string) {
+	if conds := fv.wfCond("(select "+h+" r)", sort, "alloc!entry", 0); len(conds) > 0 {
+		fv.decls = append(fv.decls, fmt.Sprintf("(assert (forall ((r Int)) (! (=> (<= r alloc!entry) (and %s)) :pattern ((select %s r)))))", strings.Join(conds, " "), h))
+		return
+	}
+	if strings.HasPrefix(sort, "(Array Int ") {
+		es := elemSortOfArray(sort)
+		if conds := fv.wfCond("(select (select "+h+" r) i)", es, "alloc!entry", 0); len(conds) > 0 {
+			fv.decls = append(fv.decls, fmt.Sprintf("(assert (forall ((r Int) (i Int)) (! (=> (<= r alloc!entry) (and %s)) :pattern ((select (select %s r) i)))))", strings.Join(conds, " "), h))
+		}
+	}
 }
